@@ -360,7 +360,7 @@ func TestC16DLEQ(t *testing.T) {
 	for _, si := range allSuites {
 		si := si
 		t.Run(si.name, func(t *testing.T) {
-			vlib.Check(t, si.cases([4]int{150, 150, 30, 14}, 5), func(t *rapid.T) { dleqCase(t, si) })
+			vlib.Check(t, si.cases([4]int{120, 120, 24, 11}, 6), func(t *rapid.T) { dleqCase(t, si) })
 		})
 	}
 }
@@ -579,7 +579,7 @@ func TestC16DL(t *testing.T) {
 	for _, si := range allSuites {
 		si := si
 		t.Run(si.name, func(t *testing.T) {
-			vlib.Check(t, si.cases([4]int{200, 200, 60, 30}, 5), func(t *rapid.T) { dlCase(t, si) })
+			vlib.Check(t, si.cases([4]int{200, 200, 60, 30}, 6), func(t *rapid.T) { dlCase(t, si) })
 		})
 	}
 }
@@ -588,8 +588,8 @@ func TestC16DL(t *testing.T) {
 // zk/qndleq
 
 // verifierSecParam is the statistical security parameter the verifying side of these
-// checks expects (the value used by every caller in circl: tss/rsa and the package's
-// own tests use 128).
+// checks expects (the package's own tests and benchmarks use 128; nothing else in circl
+// calls zk/qndleq).
 const verifierSecParam = 128
 
 type safePrime struct {
@@ -963,5 +963,5 @@ func TestC16QNDLEQ(t *testing.T) {
 	if poolErr != nil {
 		t.Fatalf("SELFTEST-FAIL safe prime pool: %v", poolErr)
 	}
-	vlib.Check(t, vlib.N(400, 2000), func(t *rapid.T) { qndleqCase(t) })
+	vlib.Check(t, vlib.N(350, 2000), func(t *rapid.T) { qndleqCase(t) })
 }
